@@ -380,6 +380,9 @@ def jobs(ctx, tier):
     for g in GROUPS:
         for ka, kb in ((4, None), (0, 4), (1, 4), (2, 4), (3, 4), (5, 4)):
             js.append(Job(f'table-short-strings/{"+".join(g)}/{KINDS[ka]}-{"any" if kb is None else KINDS[kb]}', h_table, (mir, g, ka, kb), witness=[f'table-{o}' for o in g], str_mode='bounded', weight=4))
+    # equality of a value with a copy of itself (shared storage) must be the table's answer for two identical values (C14's harness)
+    for ka in (4, 5):
+        js.append(Job(f'eq-shared/{KINDS[ka]}', C14.h_eq_shared, (mir, ka), witness=['eq-done'], weight=3))
     fold_ops = BINOPS if tier == 'thorough' else ['Plus', 'Minus', 'And', 'Nor', 'Eq', 'Less']
     for op in fold_ops:
         js.append(Job(f'listfold/{op}/2', h_listfold, (mir, op, 2), witness=['fold-done'], weight=4))
@@ -458,6 +461,7 @@ def ref_json(v):
 
 
 def replay(ctx, f):
+    if (f.get('cex') or {}).get('shared'): return C14.replay(ctx, f)
     cex = f.get('cex') or {}
     if 'program' in cex:
         from .progcommon import native_replay
